@@ -47,7 +47,7 @@ func vfResetGlobals() *vfCounterEntropy {
 	ent := &vfCounterEntropy{}
 	SetEntropy(ent)
 	refTime = vrt.Epoch0
-	vfBatchMode, vfBatchPartial = false, false
+	vfBatchMode, vfBatchPartial, vfBatchFault = false, false, false
 	return ent
 }
 
